@@ -117,14 +117,71 @@ inductive Conjunct (c : Expr) : Expr → Prop
   | kwAndL {p l r} : Conjunct c l → Conjunct c (.binop p .kwAnd l r)
   | kwAndR {p l r} : Conjunct c r → Conjunct c (.binop p .kwAnd l r)
 
+/-- the pair test is monotone: a pair found among some of the conjuncts is found among all -/
+theorem emptyPair_sublist {l1 l2 : List Scan} (h : l1.Sublist l2) (h1 : emptyPair l1 = true) :
+    emptyPair l2 = true := by
+  cases h2 : emptyPair l2 with
+  | true => rfl
+  | false =>
+    have := ((emptyPair_false_iff l2).mp h2).sublist h
+    rw [← emptyPair_false_iff] at this
+    rw [this] at h1; cases h1
+
+/-- `optimizeExpr` of any node in terms of the pair test and the tree combination -/
+theorem optimizeExpr_eq (e : Expr) :
+    optimizeExpr e = if emptyPair (leafTypes e) then .empty else andTree e := by
+  cases h : isAnd e with
+  | false => simp [leafTypes_leaf h, andTree_leaf h, emptyPair]
+  | true =>
+    cases e with
+    | binop p op l r =>
+      cases op <;> simp [isAnd] at h
+      · rw [optimizeExpr_and, leafTypes_and, andTree_and]
+      · rw [optimizeExpr_kwAnd, leafTypes_kwAnd, andTree_kwAnd]
+    | _ => simp [isAnd] at h
+
+/-- a conjunct's leaves are among the leaves of the whole conjunction, in order -/
+theorem conjunct_leaves {c e : Expr} (hc : Conjunct c e) : (leafTypes c).Sublist (leafTypes e) := by
+  induction hc with
+  | self => exact List.Sublist.refl _
+  | andL _ ih => rw [leafTypes_and]; exact ih.trans (List.sublist_append_left _ _)
+  | andR _ ih => rw [leafTypes_and]; exact ih.trans (List.sublist_append_right _ _)
+  | kwAndL _ ih => rw [leafTypes_kwAnd]; exact ih.trans (List.sublist_append_left _ _)
+  | kwAndR _ ih => rw [leafTypes_kwAnd]; exact ih.trans (List.sublist_append_right _ _)
+
+theorem conjunct_point_tree {c e : Expr} (hc : Conjunct c e) (h : pointKind (optimizeExpr c)) :
+    pointKind (andTree e) ∨ emptyPair (leafTypes e) = true := by
+  induction hc with
+  | self =>
+    rw [optimizeExpr_eq] at h
+    cases hp : emptyPair (leafTypes c) with
+    | true => exact Or.inr rfl
+    | false => simp [hp] at h; exact Or.inl h
+  | andL hc' ih =>
+    rcases ih with ih | ih
+    · left; rw [andTree_and]; exact andScan_point (Or.inl ih)
+    · right; rw [leafTypes_and]; exact emptyPair_sublist (List.sublist_append_left _ _) ih
+  | andR hc' ih =>
+    rcases ih with ih | ih
+    · left; rw [andTree_and]; exact andScan_point (Or.inr ih)
+    · right; rw [leafTypes_and]; exact emptyPair_sublist (List.sublist_append_right _ _) ih
+  | kwAndL hc' ih =>
+    rcases ih with ih | ih
+    · left; rw [andTree_kwAnd]; exact andScan_point (Or.inl ih)
+    · right; rw [leafTypes_kwAnd]; exact emptyPair_sublist (List.sublist_append_left _ _) ih
+  | kwAndR hc' ih =>
+    rcases ih with ih | ih
+    · left; rw [andTree_kwAnd]; exact andScan_point (Or.inr ih)
+    · right; rw [leafTypes_kwAnd]; exact emptyPair_sublist (List.sublist_append_right _ _) ih
+
 theorem conjunct_point {c e : Expr} (hc : Conjunct c e) (h : pointKind (optimizeExpr c)) :
     pointKind (optimizeExpr e) := by
-  induction hc with
-  | self => exact h
-  | andL _ ih => simp only [optimizeExpr]; exact andScan_point (Or.inl ih)
-  | andR _ ih => simp only [optimizeExpr]; exact andScan_point (Or.inr ih)
-  | kwAndL _ ih => simp only [optimizeExpr]; exact andScan_point (Or.inl ih)
-  | kwAndR _ ih => simp only [optimizeExpr]; exact andScan_point (Or.inr ih)
+  rw [optimizeExpr_eq]
+  rcases conjunct_point_tree hc h with h | h
+  · split
+    · trivial
+    · exact h
+  · simp [h, pointKind]
 
 /-- the point atoms: `key = lit`, `lit = key`, `key in (lits)` (a non-empty list of string literals) -/
 inductive PointAtom : Expr → Prop
@@ -135,9 +192,9 @@ inductive PointAtom : Expr → Prop
 
 theorem pointAtom_point {c : Expr} (h : PointAtom c) : pointKind (optimizeExpr c) := by
   cases h with
-  | eqR | eqL => simp [optimizeExpr, optimizeEqualExpr, operands, pointKind]
+  | eqR | eqL => simp [optimizeExpr, infer, Conj.single, optimizeEqualExpr, operands, pointKind]
   | inList p p1 p2 items h1 h2 =>
-    simp [optimizeExpr, optimizeInExpr, leftField, h1, h2, pointKind]
+    simp [optimizeExpr, infer, Conj.single, optimizeInExpr, leftField, h1, h2, pointKind]
 
 /-- `eq_in_point_reads`: a WHERE clause with a conjunct `key = lit` / `lit = key` /
     `key in (lits)` is planned as point reads (MGET) or as nothing (EMPTY), whatever the other
